@@ -3,7 +3,7 @@
    the pinned tree violates together with their [_refuted] witnesses, non-vacuity examples,
    and Print Assumptions. *)
 From Verif Require Import Lib.Base Lib.Utf8 Model.Csv Proofs.CsvBase Proofs.CsvFuel Proofs.CsvRoundtrip
-  Proofs.CsvAccount Proofs.CsvChunks.
+  Proofs.CsvAccount Proofs.CsvChunks Proofs.CsvScanner.
 
 (* ------------------------------------------------------------------------- *)
 (* separator / comment validation: interp.validCSVSeparator, validateCSVInputConfig *)
@@ -196,6 +196,32 @@ Theorem C08_chunk_independent_partial : forall c, valid_sep (c_sep c) -> forall 
   arun (S (msr [] chunks false)) c (mkSt false 0) [] chunks false = read_file c (concat chunks).
 Proof. exact csv_chunk_independent. Qed.
 Print Assumptions C08_chunk_independent_partial.
+
+(* (4) the same for the buffer-level model of bufio.Scanner (the one that is run against the
+   implementation, stale bytes and capacity included), for inputs shorter than half the buffer
+   (goawk: 64 KiB buffer): it delivers the events of the whole-input reader, hence the guarded
+   form of C08_chunk_full_statement, and the round trip under every chunking. *)
+Theorem C08_reader_is_whole_input_reader : forall c cap maxtok chunks,
+  valid_sep (c_sep c) -> prefix_of bom (concat chunks) = false ->
+  2 * zlen (concat chunks) < cap ->
+  read_csv c cap maxtok chunks = (read_file c (concat chunks), FEOF).
+Proof. exact read_csv_is_read_file. Qed.
+Print Assumptions C08_reader_is_whole_input_reader.
+
+Theorem C08_chunk_partial : forall c cap maxtok chunks,
+  valid_sep (c_sep c) -> prefix_of bom (concat chunks) = false -> 2 * zlen (concat chunks) < cap ->
+  read_csv c cap maxtok chunks = read_csv c cap maxtok [concat chunks].
+Proof. exact read_csv_chunk_independent. Qed.
+Print Assumptions C08_chunk_partial.
+
+Theorem C08_roundtrip_any_chunking : forall c cap maxtok rows chunks,
+  valid_sep (c_sep c) -> c_comment c = 0 -> c_header c = false -> Forall row_ok rows ->
+  concat chunks = write_csv (c_sep c) false rows ->
+  prefix_of bom (concat chunks) = false -> 2 * zlen (concat chunks) < cap ->
+  read_csv c cap maxtok chunks =
+  (map (fun fs => ERecord (join_fields (c_sep c) false fs) fs) rows, FEOF).
+Proof. exact read_csv_roundtrip. Qed.
+Print Assumptions C08_roundtrip_any_chunking.
 
 Example C08_ex_chunks :
   let chunks := [[97; 44; 34]; [98; 10]; [99; 34; 10; 100]; [44; 101; 13]; [10; 102]] in
